@@ -312,6 +312,96 @@ def directed_nets(rng, want, tries=400):
     return found
 
 
+def cluster_net(rng, n):
+    """two multi-tensor clusters of comparable cost joined by one bond, dims 2..7"""
+    na = rng.randint(2, n - 2)
+    inputs = [[] for _ in range(n)]
+    syms = iter(SYMS)
+
+    def mk(idx):
+        for k in range(1, len(idx)):
+            s = next(syms)
+            inputs[idx[rng.randrange(k)]].append(s)
+            inputs[idx[k]].append(s)
+        for _ in range(rng.randint(0, len(idx) - 1)):
+            a, b = rng.sample(idx, 2)
+            s = next(syms)
+            inputs[a].append(s)
+            inputs[b].append(s)
+    A, B = list(range(na)), list(range(na, n))
+    mk(A)
+    mk(B)
+    s = next(syms)
+    inputs[rng.choice(A)].append(s)
+    inputs[rng.choice(B)].append(s)
+    output = []
+    for i in range(n):
+        if rng.random() < 0.3:
+            s = next(syms)
+            inputs[i].append(s)
+            output.append(s)
+    sd = {x: rng.randint(2, 7) for t in inputs for x in t}
+    return [tuple(t) for t in inputs], tuple(output), sd
+
+
+def prune_vectors(spec, n):
+    """per tree: (size score, J_size, max score, J_max) with J = the largest iscore + jscore over its joins.
+    Used only to DIRECT generation towards networks / initial caps on which a pruning rule on
+    iscore + jscore (sound for the additive objectives, unsound for the max-type ones) hides the optimum."""
+    def trees(S):
+        S = sorted(S)
+        if len(S) == 1:
+            yield (0, 0, 0, 0)
+            return
+        first, rest = S[0], S[1:]
+        for msk in range(0, 2 ** len(rest) - 1):
+            A = frozenset([first] + [rest[b] for b in range(len(rest)) if msk >> b & 1])
+            B = frozenset(S) - A
+            f, s, _ = spec.step(A, B)
+            tb = list(trees(B))
+            for a in trees(A):
+                for b in tb:
+                    yield (max(a[0], b[0], s), max(a[1], b[1], a[0] + b[0]),
+                           max(a[2], b[2], f), max(a[3], b[3], a[2] + b[2]))
+    return list(trees(frozenset(range(n))))
+
+
+def sum_sensitive_caps(vs, i, cmax=48):
+    """initial caps c0 such that, at the first cap c0*2^k admitting some tree whose score AND whose
+    largest child-score sum are within the cap, the best such tree is worse than the optimum"""
+    opt = min(v[i] for v in vs)
+    res = []
+    for c0 in range(1, cmax + 1):
+        C = c0
+        while True:
+            reach = [v[i] for v in vs if v[i] <= C and v[i + 1] <= C]
+            if reach:
+                break
+            C *= 2
+        if min(reach) > opt:
+            res.append(c0)
+    return res
+
+
+def directed_prune_nets(rng, want, sizes=(5, 6, 6), tries=300):
+    """[(net, objective string, [caps])]: cluster networks whose optimal size / max tree joins two non-leaf
+    subtrees of comparable score while a worse tree lies in the same cost_cap bracket"""
+    out = []
+    for _ in range(tries):
+        if len(out) >= want:
+            break
+        n = rng.choice(sizes)
+        inputs, output, sd = cluster_net(rng, n)
+        if not precondition(inputs, output, sd):
+            continue
+        vs = prune_vectors(SpecNet(inputs, output, sd), n)
+        for which, i in (("size", 0), ("max", 2)):
+            caps = sum_sensitive_caps(vs, i)
+            if caps:
+                out.append(((inputs, output, sd), which, caps))
+    return out
+
+
 # ---------------------------------------------------------------------------
 # worker: everything that calls cotengra runs here (subprocess, per-call alarm)
 def worker_main():
@@ -490,7 +580,7 @@ def run(ctx):
                      "cap": rng.choice(CAPS), "search_outer": rng.random() < 0.5,
                      "trace": 1500 if c % 2 == 0 else 0, "net": kindnet, "cobj": cobj, "timeout": 15})
     # K2 + oracle: end to end on precondition networks
-    n_net = max(12, int(ctx.n(24, 260) * scale))
+    n_net = max(12, int(ctx.n(24, 170) * scale))
     nets = []
     directed = directed_nets(rng, ctx.n(3, 12))
     dlist = [(k, net) for k, v in sorted(directed.items()) for net in v]
@@ -521,6 +611,22 @@ def run(ctx):
                              "minimize": mini, "cap": cap, "search_outer": so, "oi": oi,
                              "entry": rng.choice(["function", "function", "class", "call"]),
                              "timeout": 30 if n <= 8 else 90})
+    # directed: cluster networks + small initial caps on which the max-type objectives are sensitive to any
+    # pruning by iscore + jscore (see directed_prune_nets); size and max, both search modes, cap sweep
+    for (net, which, caps) in directed_prune_nets(rng, ctx.n(5, 16), sizes=(5, 6, 6) if ctx.quick else (5, 6, 6, 7)):
+        inputs, output, sd = net
+        c = len(nets)
+        nets.append(net)
+        ctx.count("directed_cluster_%s" % which)
+        sweep = sorted(set(caps[:3] + [caps[len(caps) // 2], caps[-1]] + [1, 2, 3, 5, 7, 11]))
+        for mini in ("size", "max"):
+            oi = [o[0] for o in OBJECTIVES].index(mini)
+            for so in (False, True):
+                for cap in sweep:
+                    jobs.append({"id": "e%d_%d_%d_%d" % (c, oi, so, cap), "kind": "e2e", "net": c,
+                                 "inputs": [list(t) for t in inputs], "output": list(output), "size_dict": sd,
+                                 "minimize": mini, "cap": cap, "search_outer": so, "oi": oi,
+                                 "entry": "function", "timeout": 30})
     # informational only: networks OUTSIDE the precondition (the property does not apply; never judged)
     info_nets = []
     for c in range(max(5, int(ctx.n(40, 300) * scale))):
@@ -689,7 +795,7 @@ def run(ctx):
             recs.append(dict(rec, what="Coq spec score / admissibility of the returned tree"))
             # brute_min inside Coq costs ~1.5 s for n=6 and ~17 s for n=7: all configurations up to
             # n=5 (quick) / n=6 (thorough), a few per network at the enumeration limit
-            if n < enum_limit or (n == enum_limit and (job["oi"] + 2 * int(so) + c) % ctx.n(4, 8) == 0):
+            if n < enum_limit or (n == enum_limit and (job["oi"] + 2 * int(so) + c) % ctx.n(4, 10) == 0):
                 lhs3 = "let p := %s in brute_min (p_nodes p) (p_app p) (p_sizes p) %s %s" % (P, cobj, coq(bool(so)))
                 rhs3 = "(Some %s)" % coq(Z(got))
                 cases.append((job["id"] + "_brute", lhs3, rhs3))
@@ -769,7 +875,10 @@ def run(ctx):
         "K1: ContractionProcessor states from precondition networks (1/3) and perverse networks (2/3: repeated "
         "indices, scalars, disconnected, hyper, leaf-only, index on all tensors), simplify on/off, every connected "
         "group, random objective (10 strings incl. custom factors), cap in %r, both search_outer; half with the full "
-        "cost-function call trace.  K2/oracle: 6/24 directed networks on which the objectives provably disagree "
+        "cost-function call trace.  K2/oracle: 5/16 directed two-cluster networks (dims 2..7, n=5..7) with a sweep of small initial caps chosen, by "
+        "enumeration, so that for size/max a worse tree lies in the first cap bracket in which the optimal tree's two "
+        "non-leaf halves have a score SUM above the cap (exposes pruning rules that are sound only for additive "
+        "objectives); 6/24 directed networks on which the objectives provably disagree "
         "(no flops-optimal tree is max-optimal / no write-optimal tree is size-optimal, found by enumeration) + "
         "precondition networks n=3..8/9 (tree/ring/dense/random shapes, hyper "
         "indices, dangling and shared output indices, mixed dims incl. 1 and 64) x 6 named objectives x both "
